@@ -93,6 +93,24 @@ static int pindex(ABT_pool p)
     return -1;
 }
 
+/* how many elements of the runtime's unit table hold this handle right now (white-box, read-only walk of
+ * p_global->unit_to_thread_entires; the element type is private to unit.c: {unit, p_thread, p_next}) */
+static int table_count(ABT_unit u)
+{
+    ABTI_global *g = ABTI_global_get_global();
+    int n = 0;
+    for (int i = 0; i < (int)ABTI_UNIT_HASH_TABLE_SIZE; i++) {
+        struct cell {
+            void *unit;
+            ABTI_thread *p_thread;
+            struct cell *p_next;
+        } *c = (struct cell *)ABTD_atomic_acquire_load_ptr(&g->unit_to_thread_entires[i].list.val);
+        for (; c; c = c->p_next)
+            n += (ABT_unit)c->unit == u;
+    }
+    return n;
+}
+
 /* ---- user pool implementation shared by pools 2,3,4 ---- */
 static ABT_unit q[NPOOLS][MAXQ];
 static int qn[NPOOLS];
@@ -115,7 +133,7 @@ static ABT_unit up_create(int pi, ABT_thread thread)
         uunit *u = (uunit *)(arena + slot_off[NSLOTS + k]);
         u->thread = thread;
         u->slot = NSLOTS + k;
-        OUT(" | create p%d t%d u%d", pi, k, NSLOTS + k);
+        OUT(" | create p%d t%d u%d m%d", pi, k, NSLOTS + k, table_count((ABT_unit)u));
         if (twin_live[pi - 5][k])
             OUT("!already-live");
         twin_live[pi - 5][k] = 1;
@@ -127,7 +145,7 @@ static ABT_unit up_create(int pi, ABT_thread thread)
             uunit *u = (uunit *)(arena + slot_off[i]);
             u->thread = thread;
             u->slot = i;
-            OUT(" | create p%d t%d u%d", pi, tindex(thread), i);
+            OUT(" | create p%d t%d u%d m%d", pi, tindex(thread), i, table_count((ABT_unit)u));
             return (ABT_unit)u;
         }
     printf("harness-error: arena full\n");
@@ -136,7 +154,7 @@ static ABT_unit up_create(int pi, ABT_thread thread)
 static void up_free(int pi, ABT_unit unit)
 {
     int s = slot_of(unit);
-    OUT(" | free p%d u%d", pi, s);
+    OUT(" | free p%d u%d m%d", pi, s, table_count(unit)); /* m: still in the runtime's table at this instant? */
     if (s >= NSLOTS && pi >= 5) {
         if (!twin_live[pi - 5][s - NSLOTS])
             OUT("!not-live");
